@@ -140,7 +140,8 @@ def check_valid_render(x):
         r = x.to_str(None, o, rs, re_)
         if T.strip_sgr(r) != x._s:
             bad.append(('C15', 'render_strip', 'flags=%s out=%r' % ((o, rs, re_), r)))
-        if not o:
+        if not o or any(t.isascii() and not grammar_parsable(t) for t in used):
+            # not optimised — by request, or because a setting is not parsable (then `optimize=True` has no effect)
             seqs = [v for k, v in T.tokens(r) if k == 'sgr']
             for t in used:
                 if not any((';' + t + ';') in (';' + q + ';') for q in seqs):
